@@ -200,6 +200,16 @@ def build_points(desc, phi_fn, bound, l_max, cy):
     theta = loads / (1.01 * top)
     sf = rh.cy_term(theta)
     lnp = phis - sf
+    dipped = False
+    if desc.get("dip") and m >= 3:
+        # Cheng-Yang: the coverage term can fall faster than the potential rises, so that a HIGHER pressure belongs to a
+        # NARROWER pore. Exchange the two widest targets when the pressures stay increasing: every width must still solve
+        # the equation at its own pressure (the monotonicity clause is then not asserted)
+        t2, f2 = targets.copy(), phis.copy()
+        t2[[m - 2, m - 1]], f2[[m - 2, m - 1]] = t2[[m - 1, m - 2]], f2[[m - 1, m - 2]]
+        lnp2 = f2 - sf
+        if np.all(np.diff(lnp2) >= 1e-3) and lnp2[-1] <= LN_TOP:
+            targets, phis, lnp, dipped = t2, f2, lnp2, True
     n_ok = int(np.sum(lnp <= LN_TOP))  # lnp is increasing: a prefix
     if n_ok < 1:
         return None
@@ -208,7 +218,7 @@ def build_points(desc, phi_fn, bound, l_max, cy):
     return {
         "p": np.append(np.exp(lnp[sl]), P_CAP), "loading": np.append(loads[sl], top), "sf": np.append(sf[sl], sf_cap),
         "target": np.append(targets[sl], np.nan), "plateau": np.append(np.zeros(n_ok, bool), True),
-        "eff": np.append(phis[sl], math.log(P_CAP) + sf_cap), "dropped": len(u) - n_ok,
+        "eff": np.append(phis[sl], math.log(P_CAP) + sf_cap), "dropped": len(u) - n_ok, "dipped": dipped and n_ok == m,
     }
 
 
@@ -415,6 +425,8 @@ def _run_solves(desc, ctx, source):
               f"points_{min(len(pts['p']), 7)}")
     if pts["dropped"]:
         ctx.label("some_targets_outside_pressure_window")
+    if pts.get("dipped"):
+        ctx.label("cy_narrower_pore_at_higher_pressure")
     ctx.nt([source, desc], desc)
     probs.raise_if_any()
 
@@ -499,7 +511,7 @@ def check_temperature(desc, ctx):
     box = capture_closure(model, geometry, T, ads, mat_arg)
     bound = rh.lower_bound(geometry, ads, mat_ref)
     l_max = (W_MAX + mat_ref["molecular_diameter"]) / rh.mult(geometry)
-    pts = build_points(desc, box["f"], bound, l_max, cy)
+    pts = build_points(dict(desc, dip=False), box["f"], bound, l_max, cy)
     if pts is None or abs(T2 - T) < 1.0:
         ctx.label("too_few_points" if pts is None else "same_temperature")
         return
@@ -692,11 +704,12 @@ def _targets(max_n, min_n=3):
 
 def _base(max_n=7, models=rh.MODELS, geometries=rh.GEOMETRIES, min_n=3):
     return st.builds(
-        lambda model, geo, T, mat, ads, ul, kappa, zero: {
+        lambda model, geo, T, mat, ads, ul, kappa, zero, dip: {
             "model": model, "geometry": geo, "T": T, "material": mat, "adsorbate": ads, "u": ul[0], "dload": ul[1],
-            "plateau": kappa, "zero_first": zero},
+            "plateau": kappa, "zero_first": zero, "dip": dip},
         st.sampled_from(list(models)), st.sampled_from(list(geometries)), st.floats(70.0, 300.0), _material(),
-        _adsorbate(), _targets(max_n, min_n), _logu(0.05, 20.0), st.sampled_from([False] * 7 + [True]))
+        _adsorbate(), _targets(max_n, min_n), _logu(0.05, 20.0), st.sampled_from([False] * 7 + [True]),
+        st.sampled_from([False, True]))
 
 
 def strat_solves():
